@@ -762,3 +762,28 @@ Fixpoint clean_run (st : state) (h : list op) : bool :=
   | [] => true
   | o :: r => clean st o && clean_run (snd (step st o)) r
   end.
+
+(* ---------- value EXPRESSIONS that are not literals ---------- *)
+(* EConcatEmpty j f l = (concat (slice (hget v<j> f) 0 0) [l..]): concat onto the empty prefix of an array that
+   is stored in a field (and therefore carries a cached array type).  arrayutils.go ConcatArray builds a NEW
+   array without cached type, so the value is simply the array of the given elements; evaluation fails when
+   the instance or the field is missing or the field does not hold an array.
+   (append / appendslice / slice results and (map f arr) results DO inherit or invent a cached type in the
+   unchanged code - reported to the lead, not modelled.) *)
+Inductive vexpr := EVal (v : value) | EConcatEmpty (j f : nat) (l : list value).
+
+Definition eval_vexpr (st : state) (e : vexpr) : option value :=
+  match e with
+  | EVal v => Some v
+  | EConcatEmpty j f l =>
+    match alookup j (st_store st) with
+    | Some i => match flookup (KSym f) (i_fields i) with Some (VArr _) => Some (VArr l) | _ => None end
+    | None => None
+    end
+  end.
+
+Definition max_id (st : state) : nat := fold_right (fun p m => Nat.max (fst p) m) 0 (st_store st).
+(* a failing expression is represented by a reference to a variable that is certainly unbound: the step then
+   reports an error through value_ok, exactly like any other unbound variable in the value *)
+Definition resolve (st : state) (e : vexpr) : value :=
+  match eval_vexpr st e with Some v => v | None => VInst (S (max_id st)) end.
